@@ -16,7 +16,8 @@ EVIDENCE = dict(
          "(quick: boundary values of 8-bit options), random full assignments; after the assignments the module is saved "
          "stand-alone and inside a project, the options record is located through the TLV layer and the files are "
          "reloaded; Trace_RVOptions checks assignment result, record bytes = Pack, reloaded values, exclusivity and "
-         "bounds. non-trivial = at least one option differs from its default.",
+         "bounds. Single assignments are also made by constructor keyword, and every seventh case runs with the library's loggers "
+         "at DEBUG. non-trivial = at least one option differs from its default.",
     explanation="complete over single options and over pairs within the stated value sets")
 
 
@@ -61,13 +62,45 @@ def chnm_chdt(data):
     return out
 
 
-def run_case(api, classes, t, ops, base=None):
-    """base: a module obtained by loading (its options are the event's init); None: fresh module."""
+class debug_logging:
+    """The library's loggers at DEBUG (records discarded): behaviour must not depend on the logging configuration."""
+
+    def __enter__(self):
+        import logging
+        self.lg = logging.getLogger("rv")
+        self.disabled = logging.root.manager.disable      # (the harness silences the library's warnings process-wide)
+        logging.disable(logging.NOTSET)
+        self.saved = (self.lg.level, self.lg.propagate, list(self.lg.handlers))
+        self.lg.handlers = [logging.NullHandler()]
+        self.lg.propagate = False
+        self.lg.setLevel(logging.DEBUG)
+        self.children = []
+        for name, obj in list(logging.Logger.manager.loggerDict.items()):
+            if name.startswith("rv.") and isinstance(obj, logging.Logger):
+                self.children.append((obj, obj.level))
+                obj.setLevel(logging.NOTSET)
+
+    def __exit__(self, *a):
+        self.lg.setLevel(self.saved[0])
+        self.lg.propagate = self.saved[1]
+        self.lg.handlers = self.saved[2]
+        for obj, lvl in self.children:
+            obj.setLevel(lvl)
+        import logging
+        logging.disable(self.disabled)
+
+
+def run_case(api, classes, t, ops, base=None, kwarg=False):
+    """base: a module obtained by loading (its options are the event's init); None: fresh module.
+    kwarg: the (single) assignment is made by constructor keyword instead of attribute assignment."""
     cls = classes[t]
     names = sorted(cls.options)
-    m = cls() if base is None else base
+    if kwarg:
+        m = cls(**{n: v for n, v in ops})
+    else:
+        m = cls() if base is None else base
     init = [] if base is None else [[n, val(getattr(m, n))] for n in names]
-    for n, v in ops:
+    for n, v in ([] if kwarg else ops):
         setattr(m, n, v)
     logical = [[n, val(getattr(m, n))] for n in names]
     files = []
@@ -103,8 +136,20 @@ def run(ctx):
     cs = cases(spec, ctx.rnd, q)
     events = []
     for k, (t, ops) in enumerate(cs):
-        e, m2, m3 = run_case(api, classes, t, ops)
+        if k % 7 == 3:          # with the library's loggers at DEBUG
+            with debug_logging():
+                e, m2, m3 = run_case(api, classes, t, ops)
+        else:
+            e, m2, m3 = run_case(api, classes, t, ops)
         events.append(e)
+        o0 = next(o for o in spec[t]["opts"] if o["name"] == ops[0][0])
+        coupled = o0["exclusive_of"] or any(o0["name"] in p_["exclusive_of"] for p_ in spec[t]["opts"])
+        if len(ops) == 1 and not coupled and (o0["size"] == 1 or 0 <= ops[0][1] < 2 ** o0["size"] or o0["hasmm"]):
+            # the same single assignment by constructor keyword (options without exclusivity coupling: the constructor
+            # applies the partners' defaults afterwards)
+            ek, _, _ = run_case(api, classes, t, ops, kwarg=True)
+            events.append(ek)
+            ctx.count_case((t, "kwarg", json.dumps(ops)), nontrivial=True)
         if k % 3 == 0:      # edit the module that came out of a load, save and load again
             ops2 = [[n, ctx.rnd.choice([0, 1] if o["size"] == 1 else [0, 1, 2 ** o["size"] - 1])]
                     for o in ctx.rnd.sample(spec[t]["opts"], min(3, len(spec[t]["opts"]))) for n in [o["name"]]]
